@@ -97,6 +97,20 @@ def extra(report, env):
             r = p.parse(q + s + q)
             if r['result'] != s and len(fails) < 5:
                 fails.append({'formula': q + s + q, 'detail': 'expected %r got %r' % (s, r)})
+    # an omitted slot arrives as blank (None) whatever the receiving function looks like: declared defaults, keyword-only tails, *args
+    got_args = []
+
+    def with_defaults(a=1, b=10, c=20, *rest):
+        got_args.append((a, b, c) + rest)
+        return len(got_args)
+    p.set_function('DEF', with_defaults)
+    for text, want in (('DEF(1,,3)', (1, None, 3)), ('DEF(,2)', (None, 2, 20)), ('DEF(1,)', (1, None, 20)), ('DEF(,,)', (None, None, None)), ('DEF(1;;3;;5)', (1, None, 3, None, 5)),
+                       ('DEF()', (1, 10, 20)), ('DEF(7)', (7, 10, 20))):
+        del got_args[:]
+        cases += 1
+        r = p.parse(text)
+        if (got_args != [want] or r['error'] is not None) and len(fails) < 5:
+            fails.append({'formula': text, 'detail': 'a custom function with declared defaults must receive exactly the written slots, omitted ones as blank: expected %r, received %r (%r)' % (want, got_args, r)})
     # case-insensitive references
     seen = []
     p.on('callCellValue', lambda cell, setter: (seen.append(cell.label), setter(5)))
